@@ -1,5 +1,6 @@
 """C09 - dialects and both parsers agree on core SQL.  Spec: Stmt.tla / Trace_Stmt.tla (the specification has no dialect:
 agreement = every accepting dialect conforms to the same ideal answer)."""
+from harness import REPO as _REPO
 import os
 import random
 
@@ -11,8 +12,8 @@ DIALECTS = None
 
 def dialects():
     import sys
-    if "/repo" not in sys.path:
-        sys.path.insert(0, "/repo")
+    if _REPO not in sys.path:
+        sys.path.insert(0, _REPO)
     from sqlfluff.core import dialect_readout
     return sorted(d.label for d in dialect_readout())
 
